@@ -292,6 +292,10 @@ func (x *X) evalLoopClause(fr *Frame, li *loopInfo, cl *Clause, st *State, pre *
 	env := &specEnv{x: x, st: st, old: x.entry, fr: fr}
 	env.vars = bind(st, nil)
 	env.ovars = x.entryVars(fr)
+	if pre != nil {
+		env.loopPre = pre
+		env.loopVars = bind(pre, nil)
+	}
 	x.pure++
 	defer func() { x.pure-- }()
 	return x.evalClause(cl, fr.fn, env, resolve)
@@ -391,24 +395,44 @@ func (x *X) havocLoop(fr *Frame, li *loopInfo, head, pre *State) {
 			head.mem[key] = nv
 		}
 	}
-	// ghost cells
-	for _, k := range sortedKeys(pre.mem) {
-		if strings.HasPrefix(k, "calls:") || k == "ghost:pendingErr" || k == "ghost:pendingFailed" {
-			if eff.anyCall {
+	// ghost cells: call traces of the callees called in the loop, pending
+	// error/failure if a protocol callee is called
+	if eff.anyCall {
+		if eff.proto {
+			for _, k := range []string{x.pendingErrKey(), x.pendingFailedKey()} {
 				head.mem[k] = x.vc.fresh("g", x.keys[k].sort)
 			}
 		}
-	}
-	if eff.anyCall {
-		for _, k := range []string{x.pendingErrKey(), x.pendingFailedKey()} {
-			head.mem[k] = x.vc.fresh("g", x.keys[k].sort)
+		// trace cells of callees first called inside the loop must exist before the havoc
+		for cn, f := range eff.calleeFns {
+			if x.db.byFn[f] == nil && x.schematicFor(f) == nil {
+				continue
+			}
+			x.callCountKey(cn)
+			for _, p := range f.Params {
+				x.callTraceKey(cn, "arg", p.Name(), x.enc.sortOf(p.Type()), p.Type())
+			}
+			for i := 0; i < f.Signature.Results().Len(); i++ {
+				rt := f.Signature.Results().At(i).Type()
+				x.callTraceKey(cn, "ret", fmt.Sprint(i), x.enc.sortOf(rt), rt)
+			}
 		}
 		for k := range x.keys {
-			if strings.HasPrefix(k, "calls:") {
-				head.mem[k] = x.vc.fresh("g", x.keys[k].sort)
-				if strings.HasSuffix(k, ":count") {
-					x.vc.assume(x.ile(x.get(pre, k), head.mem[k]))
+			if !strings.HasPrefix(k, "calls:") {
+				continue
+			}
+			hit := false
+			for cn := range eff.callees {
+				if strings.HasPrefix(k, "calls:"+cn+":") {
+					hit = true
 				}
+			}
+			if !hit {
+				continue
+			}
+			head.mem[k] = x.vc.fresh("g", x.keys[k].sort)
+			if strings.HasSuffix(k, ":count") {
+				x.vc.assume(x.ile(x.get(pre, k), head.mem[k]))
 			}
 		}
 		dk := x.ctxDoneKey()
@@ -447,6 +471,16 @@ func (x *X) havocLoop(fr *Frame, li *loopInfo, head, pre *State) {
 			if a.Comment == "rangeindex" {
 				// the hidden index of a range loop starts at -1 and is only incremented
 				x.vc.assume(x.ile(x.ic(-1), v))
+				// ... and stays below the length it is compared with at the head
+				if ifi, ok := li.header.Instrs[len(li.header.Instrs)-1].(*ssa.If); ok {
+					if cmp, ok := ifi.Cond.(*ssa.BinOp); ok && cmp.Op == token.LSS {
+						if lv, ok := fr.vals[cmp.Y]; ok {
+							if lt, ok := lv.(Term); ok {
+								x.vc.assume(x.ilt(v, lt))
+							}
+						}
+					}
+				}
 			}
 		}
 	}
